@@ -216,9 +216,10 @@ def run(report, tier, seed):
             report.add(Ob(o['id'], o['kind'], o['status'], o['text'],
                           'modeling.py', by=o['by'], detail=o.get('detail'),
                           meta={'line': o['line']}))
-        for f_ in ('__mul__', '__neg__', '__pos__'):
-            if 'modeling.py:_minmax.' + f_ not in report.functions:
-                report.functions.append('modeling.py:_minmax.' + f_)
+        for c_ in ('_minmax', '_sum_minmax'):
+            for f_ in ('__mul__', '__neg__', '__pos__'):
+                if 'modeling.py:%s.%s' % (c_, f_) not in report.functions:
+                    report.functions.append('modeling.py:%s.%s' % (c_, f_))
     except KeyError as e:
         report.error('function under contract no longer exists: %s' % e)
     from contracts.py import keytolist_spec
